@@ -76,6 +76,9 @@ unsafe impl<T: 'static> LocalRef<T> for PtrLocalRef<T> {
         // the event, so we clear its diagnostic state before we let go of it.
         #[cfg(debug_assertions)]
         LocalEvent::clear_awaiter_backtrace(self);
+
+        #[cfg(folo_verif)]
+        crate::verif::release(self.event.as_ptr().addr(), "local_ptr");
     }
 }
 
@@ -151,6 +154,9 @@ unsafe impl<T: 'static> LocalRef<T> for BoxedLocalRef<T> {
         // Releasing the memory does not drop the event, so we clear its diagnostic state first.
         #[cfg(debug_assertions)]
         LocalEvent::clear_awaiter_backtrace(self);
+
+        #[cfg(folo_verif)]
+        crate::verif::release(self.event.as_ptr().addr(), "local_boxed");
 
         // SAFETY: The pointer and layout are the ones from the matching `alloc()` in
         // `new_pair()`, and the caller of `release_event()` guaranteed that the state machine
